@@ -153,3 +153,22 @@ def corpus_docs():
     """sources that are valid LaTeX documents: the samples and the literals of the tests that parse"""
     from harness import strings
     return strings.corpus_sources()
+
+
+def replay_case(chk, case, clause):
+    """Replay of a generated-document case: on every generated document the reader machine reproduces the oracle
+    (checked by TLC when the document was generated), so the machine's tree for the same source is an equivalent
+    oracle: the real tree (with offsets) and text must equal it."""
+    from harness import strings as S
+    src = case['input']
+    skip = tuple(case.get('skip_envs', ()))
+    res = S.explore(chk, 'replay', [], userskip=skip, invariants=[], sources=[src], runs='')
+    rec = [r for r in res.records if from_atoms(r['i']) == src][0]
+    soup, o = observe_doc(src, skip)
+    chk.case(src)
+    got = {'o': o['o'], 'out': o.get('out'), 'flat': o.get('flat')}
+    want = {'o': rec['A']['o'], 'out': from_atoms(rec['A']['out']), 'flat': rec['A']['flat']}
+    print(json.dumps({'input': src, 'real_outcome': got['o'], 'machine_outcome': want['o'], 'real_tree': repr(soup.expr) if soup else None}))
+    if got['o'] != want['o'] or (got['o'] == 'ok' and (got['out'] != want['out'] or got['flat'] != want['flat'])):
+        chk.violation(clause, {'input': src, 'kind': 'generated-document', 'skip_envs': list(skip), 'real': got['out'], 'machine': want['out']})
+    return chk.finish()
